@@ -35,7 +35,9 @@ func (t *quietT) Errorf(format string, args ...interface{}) {
 	t.failed = true
 	t.msgs = append(t.msgs, fmt.Sprintf(format, args...))
 }
-func (t *quietT) FailNow() { panic(harnessError("testdirectory FailNow: " + strings.Join(t.msgs, "; "))) }
+func (t *quietT) FailNow() {
+	panic(harnessError("testdirectory FailNow: " + strings.Join(t.msgs, "; ")))
+}
 func (t *quietT) Log(args ...interface{}) {}
 
 func parseEntry(t *Toks) *gldap.Entry {
